@@ -2,7 +2,7 @@
 from collections import defaultdict
 
 from ..cfgq import aggregates, bool_edges, cond_tree, promoted_tree, result_variant_blocks, stmt_loc, switches, variant_edges, explore, place_key
-from ..facts import AnchorError, Origins, callee_name, method_name, peel, strip_mods, call_name
+from ..facts import AnchorError, Origins, callee_name, method_name, mname, peel, strip_mods, call_name
 from ..interp import Inliner
 
 USER_TEXT_FIELDS = {"shell_expression"}
@@ -385,9 +385,65 @@ def r13_5(ctx):
                   "Ok(outputs) is returned only when exactly one output per test case was found")
 
 
+def r13_6(ctx):
+    """Cram script: the user's expression is followed by something that ends its logical line before scrut's own footer,
+    so that a trailing `\\` (line continuation) or an unterminated construct cannot swallow the divider echo"""
+    from ..fmtq import FmtError, flat_pieces
+    prog = ctx.prog
+    cs = prog.fn("compile_script")
+    oc = Origins(cs)
+    pushes = []
+    for bb, t in cs.calls():
+        if mname(t) == "Vec::push" and cs.arg_name(t["args"][0]) == "expressions":
+            pushes.append((bb, t, oc.operand(t["args"][1])))
+    user = [p for p in pushes if any(n.kind == "field" and n.a == "shell_expression" for n in p[2].walk())]
+    if len(user) != 1:
+        raise AnchorError("compile_script: push of the shell expression not found")
+    ub = user[0][0]
+    # the pushes that can directly follow the user's expression (next push in the CFG, loops cut)
+    back = cs.back_edges()
+    push_blocks = {p[0]: p for p in pushes}
+    nxt = []
+    todo, seen = [cs.blocks[ub]["term"]["target"]], set()
+    while todo:
+        b = todo.pop()
+        if b in seen:
+            continue
+        seen.add(b)
+        if b in push_blocks:
+            nxt.append(push_blocks[b])
+            continue
+        for s2 in cs.succ(b):
+            if (b, s2) not in back:
+                todo.append(s2)
+    ctx.check(len(nxt) >= 1, "separator-site", cs.loc(ub), "something is pushed after the user's expression inside the same iteration")
+    for bb, t, tree in nxt:
+        lit = None
+        n = peel(tree)
+        if n.kind == "call" and n.kids and peel(n.kids[0]).kind == "const":
+            lit = peel(n.kids[0]).a.as_str()
+        elif n.kind == "const":
+            lit = n.a.as_str()
+        else:
+            try:
+                ps = flat_pieces(tree)
+                if ps and isinstance(ps[0], str):
+                    lit = ps[0] if ps[0].startswith("\n") else None
+                    if lit is None:
+                        lit = "<format:%r>" % ps[0][:12]
+            except FmtError:
+                lit = None
+        ok = lit is not None and (lit == "" or lit.startswith("\n"))
+        ctx.check(ok, "separator-after-user-text", cs.loc(bb),
+                  "the element pushed right after the user's expression is an empty line (a dangling `\\` continuation or comment ends there, not in scrut's footer)",
+                  "the user's expression is immediately followed by scrut's own script line (%s): an expression ending in a backslash is joined with the "
+                  "divider echo, so the command is not run as written and its output / exit code are misattributed" % (lit,))
+
+
 def run(ctx):
     ctx.run_rule("R13.1", "splice-last: the str::replace that inserts the user's shell expression is the last substitution; Cram pushes the expression unmodified [E-FLOW]", r13_1, floor=6)
     ctx.run_rule("R13.2", "divider nonce: the random salt reaches the divider reader and gates divider recognition; writer/reader prefix agree [E-FLOW, summaries depth 4]", r13_2, floor=4)
     ctx.run_rule("R13.3", "no unbounded recursion: every cycle of the resolved call graph (lib+bin) is in the confirmed table [E-REC]", r13_3, floor=2)
     ctx.run_rule("R13.4", "guard tables: replace_crlf iff keep_crlf != Some(true); strip_colors iff strip_ansi_escaping == Some(true); Merge iff Combined; stdin and captured streams unmodified [E-PATH, E-FLOW]", r13_4, floor=10)
+    ctx.run_rule("R13.6", "Cram script: the user's expression is separated from scrut's footer by an empty line (no continuation into the divider echo) [E-FLOW order]", r13_6, floor=2)
     ctx.run_rule("R13.5", "Cram: per-test exit code and stdout come from the divider reader; outputs.len()==testcases.len() dominates Ok [E-FLOW, E-PATH]", r13_5, floor=3)
